@@ -24,16 +24,16 @@ PROPS = {
     "C08": dict(engine="objsim", profiles=["refs"], quick_runs=6000, slice=60, thorough_s=600, fit="native"),
     "C09": dict(engine="objsim", profiles=["copies"], quick_runs=6000, slice=60, thorough_s=600, fit="seam"),
     "C11": dict(engine="objsim", profiles=["misuse"], quick_runs=6000, slice=60, thorough_s=600, fit="native"),
-    "C20": dict(engine="hybridsim", profiles=["restart", "restart", "restart", "hybrid_restart"], quick_runs=4000, slice=60, thorough_s=600, fit="native"),
+    "C20": dict(engine="hybridsim", profiles=["restart", "restart", "hybrid_restart", "restart", "restart", "hybrid_restart", "restart", "c_restart"], quick_runs=4000, slice=60, thorough_s=600, fit="native"),
     "C10": dict(engine="objsim", profiles=["assign", "assign", "two_handles", "refs"], quick_runs=6000, slice=60, thorough_s=600, fit="native"),
-    "C02": dict(engine="capisim", profiles=["c_readers", "c_readers", "c_readers_refs", "c_writers"], quick_runs=1600, slice=20, thorough_s=600, fit="weak", run_timeout=120),
+    "C02": dict(engine="capisim", profiles=["c_readers", "c_readers", "c_readers_refs", "c_writers"], quick_runs=1600, slice=20, thorough_s=600, fit="weak", run_timeout=300),
     "C18": dict(engine="hybridsim", profiles=["hybrid", "hybrid", "hybrid_moves", "hybrid_restart"], quick_runs=5000, slice=50, thorough_s=600, fit="native"),
     "C19": dict(engine="hybridsim", profiles=["hybrid_dict", "hybrid_dict", "json"], quick_runs=5000, slice=50, thorough_s=300, fit="weak"),
     "C15": dict(engine="accsim", profiles=["accessors"], quick_runs=1200, slice=10, thorough_s=900, fit="weak", run_timeout=300),
     "C16": dict(engine="devsim", profiles=["kernels"], quick_runs=1600, slice=10, thorough_s=900, fit="native", run_timeout=180),
     "C14": dict(engine="depsim", profiles=["builds"], quick_runs=1200, slice=20, thorough_s=600, fit="weak", run_timeout=180),
-    "C17": dict(engine="capisim", profiles=["c_calls"], quick_runs=1600, slice=20, thorough_s=600, fit="seam", run_timeout=120),
-    "C07": dict(engine="capisim", profiles=["c_writers", "c_writers", "sanitize", "c_writers", "c_readers_refs", "sanitize"], quick_runs=1200, slice=20, thorough_s=900, fit="weak", run_timeout=120),
+    "C17": dict(engine="capisim", profiles=["c_calls"], quick_runs=1600, slice=20, thorough_s=600, fit="seam", run_timeout=300),
+    "C07": dict(engine="capisim", profiles=["c_writers", "c_writers", "sanitize", "c_writers", "c_readers_refs", "sanitize"], quick_runs=1200, slice=20, thorough_s=900, fit="weak", run_timeout=300),
 }
 
 _ENGINES = {}
@@ -256,7 +256,21 @@ def cmd_check(prop, tier, seed, budget_s=None, workers=None, max_runs=None):
     groups = {}  # viol key -> (index, viol json, replay)
     samples = []
     first_i, last_i = None, None
-    for d in core.pool_run(fn, range(n_runs), workers, cfg["slice"], deadline, per_run_timeout=cfg.get("run_timeout", 180)):
+    slow = []
+    rt = int(os.environ.get("VERIF_RUN_TIMEOUT", cfg.get("run_timeout", 180)))
+
+    def results():
+        yield from core.pool_run(fn, range(n_runs), workers, cfg["slice"], deadline, per_run_timeout=rt)
+        # a run that overran its wall-clock cap (a loaded machine, not a verdict) is repeated once,
+        # a few at a time, with four times the cap; only if it overruns again is it reported
+        if slow:
+            agg["retried_after_timeout"] = len(slow)
+            yield from core.pool_run(fn, list(slow), min(4, workers), 1, time.time() + rt * 8, per_run_timeout=rt * 4)
+
+    for d in results():
+        if d.get("hang") and d.get("i") not in slow and len(slow) < 16:
+            slow.append(d["i"])
+            continue
         if d.get("error"):
             agg["errors"].append((d.get("i"), d["error"]))
             continue
@@ -377,6 +391,7 @@ def cmd_check(prop, tier, seed, budget_s=None, workers=None, max_runs=None):
         "not_claimed_clauses": getattr(eng, "not_claimed", {}).get(prop, []),
         "outside_quantifier_observations": agg["obs"],
         "harness_errors": len(agg["errors"]),
+        "runs_repeated_after_wall_clock_cap": agg.get("retried_after_timeout", 0),
         "workers": workers,
     }
     extra = getattr(eng, "coverage_extra", None)
